@@ -7,10 +7,6 @@
   returned iterator and frame in one equation per overload; the assertion fires
   exactly when the documented precondition is violated; `strlen`/`strlen_r`.
   No bound on `N`, on the contents or on the surrounding memory.
-
-  One statement is false for the current code and is kept at full strength as
-  `strlen_ce_full` with its refutation: the constant-evaluation branch of
-  `strlen()` is not bounded by `size()`.
 -/
 import Sbepp.Lemmas.StaticArray
 
@@ -112,6 +108,13 @@ theorem strlen_r_spec (pre arr post : List Nat) (avail : Nat) (hav : arr.length 
   have hsc : View.sizeCheck ⟨pre.length, arr.length, avail⟩ = true := by simp [View.sizeCheck, hav]
   simp only [strlenR, hsc, rfindNonNul_framed, strlenR_eq, Bool.not_true, Bool.false_eq_true,
     if_false]
+
+/-- `strlen()` in constant evaluation: the same value -/
+theorem strlen_ce_spec (pre arr post : List Nat) (avail : Nat) (hav : arr.length ≤ avail) :
+    strlenCE ⟨pre.length, arr.length, avail⟩ (pre ++ arr ++ post)
+      = .ok (pre ++ arr ++ post) (some (Spec.StaticArray.strlen arr)) := by
+  have hsc : View.sizeCheck ⟨pre.length, arr.length, avail⟩ = true := by simp [View.sizeCheck, hav]
+  simp only [strlenCE, hsc, scanNulBounded_framed, Bool.not_true, Bool.false_eq_true, if_false]
 
 /-! ### precondition violated -/
 
@@ -275,7 +278,11 @@ theorem run_agrees_spec (pre arr post : List Nat) (avail : Nat) (op : Op)
     subst hd
     simp only [run, Spec.StaticArray.apply, Agrees]
     exact strlen_r_spec pre arr post avail hav
-  | strlenCE => simp [denote] at hd
+  | strlenCE =>
+    simp only [denote, Option.some.injEq] at hd
+    subst hd
+    simp only [run, Spec.StaticArray.apply, Agrees]
+    exact strlen_ce_spec pre arr post avail hav
 
 /-! ### consequences, in the property's own words -/
 
@@ -349,49 +356,11 @@ theorem view_too_small_rejects (v : View) (buf : List Nat) (op : Op) (h : v.avai
   | strlenCE => simp [run, strlenCE, hsc]
   | strlenR => simp [run, strlenR, hsc]
 
-/-! ### `strlen()` in constant evaluation (`string_length(data())`) -/
-
-/-- full-strength statement for the constant-evaluation branch: the same value
-    as documented, for every array content -/
-def strlen_ce_full : Prop :=
-  ∀ (pre arr post : List Nat) (avail : Nat), arr.length ≤ avail →
-    strlenCE ⟨pre.length, arr.length, avail⟩ (pre ++ arr ++ post)
-      = .ok (pre ++ arr ++ post) (some (Spec.StaticArray.strlen arr))
-
-/-- refuted by the current code: a one-element array holding `'a'` followed in
-    memory by `'~'`, NUL — the scan is not bounded by `size()` and returns 2 -/
-theorem strlen_ce_full_false : ¬ strlen_ce_full := by
-  intro h
-  have h1 := h [126] [97] [126, 0] 1 (Nat.le_refl _)
-  revert h1
-  decide
-
-/-- the constant-evaluation branch is right exactly under the hypothesis it
-    needs: a NUL inside the array -/
-theorem strlen_ce_partial (pre arr post : List Nat) (avail : Nat) (hav : arr.length ≤ avail)
-    (h0 : 0 ∈ arr) :
-    strlenCE ⟨pre.length, arr.length, avail⟩ (pre ++ arr ++ post)
-      = .ok (pre ++ arr ++ post) (some (Spec.StaticArray.strlen arr)) := by
-  rw [strlenCE_framed pre arr post avail hav, scanNul_append, if_pos h0]
-
-/-- … and what it does otherwise (recorded, not assumed away): on an array
-    without NUL it keeps reading the memory that follows and returns more than
-    `size()`, or leaves the memory -/
-theorem strlen_ce_overrun (pre arr post : List Nat) (avail : Nat) (hav : arr.length ≤ avail)
-    (h0 : 0 ∉ arr) :
-    strlenCE ⟨pre.length, arr.length, avail⟩ (pre ++ arr ++ post)
-      = match scanNul post with
-        | none => .ub
-        | some k => .ok (pre ++ arr ++ post) (some (arr.length + k)) := by
-  rw [strlenCE_framed pre arr post avail hav, scanNul_append, if_neg h0]
-  cases scanNul post <;> rfl
-
-/-- both branches of `strlen()` agree when the array contains a NUL -/
-theorem strlen_variants_agree (pre arr post : List Nat) (avail : Nat) (hav : arr.length ≤ avail)
-    (h0 : 0 ∈ arr) :
+/-- both branches of `strlen()` agree on every array -/
+theorem strlen_variants_agree (pre arr post : List Nat) (avail : Nat) (hav : arr.length ≤ avail) :
     strlenCE ⟨pre.length, arr.length, avail⟩ (pre ++ arr ++ post)
       = strlen ⟨pre.length, arr.length, avail⟩ (pre ++ arr ++ post) := by
-  rw [strlen_ce_partial pre arr post avail hav h0, strlen_spec pre arr post avail hav]
+  rw [strlen_ce_spec pre arr post avail hav, strlen_spec pre arr post avail hav]
 
 /-! ### non-vacuity: hypotheses are met by concrete non-trivial instances, and
     the statements compute -/
@@ -421,8 +390,8 @@ example : ¬ Spec.StaticArray.InContract 1 (.assignString [97, 98] .single) := b
 -- strlen / strlen_r on "a\0b\0"
 example : strlen ⟨1, 4, 4⟩ [126, 97, 0, 98, 0, 126] = .ok [126, 97, 0, 98, 0, 126] (some 1) := by decide
 example : strlenR ⟨1, 4, 4⟩ [126, 97, 0, 98, 0, 126] = .ok [126, 97, 0, 98, 0, 126] (some 3) := by decide
--- the constant-evaluation witness
-example : strlenCE ⟨1, 1, 1⟩ [126, 97, 126, 0] = .ok [126, 97, 126, 0] (some 2) := by decide
+-- constant evaluation on a full array stops at `size()`
+example : strlenCE ⟨1, 1, 1⟩ [126, 97, 126, 0] = .ok [126, 97, 126, 0] (some 1) := by decide
 example : Spec.StaticArray.strlen [97] = 1 := by decide
 example : (0 : Nat) ∈ [97, 0, 98] := by decide
 example : ∃ v : View, v.avail < v.N := ⟨⟨0, 2, 1⟩, by decide⟩
